@@ -17,6 +17,7 @@ from itertools import permutations
 import numpy as np
 import pandas as pd
 
+from symx import core
 from symx.core import Sym, SymBool, cur
 from symx.logic import b2i, between, iff, implies, ite, land, lnot, lor, state_is
 from symx.run import Job
@@ -81,17 +82,19 @@ def body_kdq(ctx, n, m, d, which, lbound=0, box=None):
     ctx.witness("checked")
 
 
-def body_hdm(ctx, features, which, second):
+def body_hdm(ctx, features, which, second, nr=4, stride=5):
     M = importlib.import_module("menelaus.data_drift.histogram_density_method")
     from menelaus.data_drift import HDDDM, CDBD
 
-    nr, nt = 4, 3
+    nt = 3
     R = obj_array([[ctx.real(f"r{i}_{j}") for j in range(features)] for i in range(nr)])
     T = obj_array([[ctx.real(f"t{i}_{j}") for j in range(features)] for i in range(nt)])
     T2 = obj_array([[ctx.real(f"u{i}_{j}") for j in range(features)] for i in range(2)])
     rec = []
 
     def histogram(a, bins=10, range=None, **kw):
+        if any(v is not None and v is not False for v in kw.values()):
+            raise core.Inconclusive(f"np.histogram counting model: unsupported arguments {kw!r}")
         counts = c07.counting_histogram(list(np.asarray(a, dtype=object)), bins, range)
         rec.append((counts, bins, range))
         return (np.array(counts, dtype=object), None)
@@ -123,7 +126,7 @@ def body_hdm(ctx, features, which, second):
         for f in range(features):
             ctx.assume(lnot(land(*[R[i, f] == R[0, f] for i in range(1, nr)])))
         base = run(R, T)
-        perms = list(permutations(range(nt))) if which == "test" else list(permutations(range(nr)))[1::5]
+        perms = list(permutations(range(nt))) if which == "test" else list(permutations(range(nr)))[1::stride]
         for p in perms:
             other = run(R, _perm(T, p)) if which == "test" else run(_perm(R, p), T)
             ctx.prove(same(base, other), "histograms-invariant-under-row-order")
@@ -226,6 +229,9 @@ def jobs(tier):
                 out.append(Job(f"hdm-f{features}-{which}-second{int(second)}", "checks.c18:body_hdm",
                                {"features": features, "which": which, "second": second}, expect=("checked",),
                                opts={"validate": 1, "query_timeout_ms": 60000}))
+    # a reference with an odd number of rows (none of them may get lost: which one would depend on the row order)
+    out.append(Job("hdm-f1-reference-odd", "checks.c18:body_hdm", {"features": 1, "which": "reference", "second": False, "nr": 5, "stride": 37},
+                   expect=("checked",), opts={"validate": 1, "query_timeout_ms": 60000}))
     for n1, n2, d in ((2, 2, 1), (3, 2, 1), (2, 2, 2)) + (() if q else ((3, 2, 2),)):
         out.append(Job(f"nnsp-{n1}x{n2}-d{d}", "checks.c18:body_nnsp", {"n1": n1, "n2": n2, "d": d}, expect=("checked",),
                        opts={"validate": 1}))
